@@ -210,4 +210,24 @@ CATALOGUE = [
     dict(id="c05-silent-dict-dispatch", props=["C05"], file=TR + "json_reader.py", expect="silent",
          old="            if relation_type == JSONFeatureType.OPTIONAL.value:\n                new_relation = Relation(feature, children, 0, 1)\n            elif relation_type == JSONFeatureType.MANDATORY.value:",
          new="            if relation_type == 'OPTIONAL':\n                new_relation = Relation(parent=feature, children=children, card_min=0, card_max=1)\n            elif relation_type == JSONFeatureType.MANDATORY.value:"),
+    # ---- C08 ------------------------------------------------------------------------------------
+    dict(id="c08-xor-as-or-term", props=["C08"], file=TR + "glencoe_writer.py", rule="C08-VOC",
+         old='ASTOperation.XOR: "XorTerm"', new='ASTOperation.XOR: "OrTerm"'),
+    dict(id="c08-or-group-max1", props=["C08"], file=TR + "glencoe_reader.py", rule="C08-KIND",
+         old="                    relation = Relation(feature, children, 1, len(children))",
+         new="                    relation = Relation(feature, children, 1, 1)"),
+    dict(id="c08-optional-flag-inverted", props=["C08"], file=TR + "glencoe_writer.py", rule="C08-KIND",
+         old='"optional": not feature.is_mandatory(),', new='"optional": feature.is_optional() or feature.is_root(),'),
+    dict(id="c08-min-max-swapped", props=["C08"], file=TR + "glencoe_writer.py", rule="C08-KIND",
+         old='            features_info[feature_id]["min"] = relation.card_min\n            features_info[feature_id]["max"] = relation.card_max',
+         new='            features_info[feature_id]["min"] = relation.card_max\n            features_info[feature_id]["max"] = relation.card_min'),
+    dict(id="c08-key-raw-name", props=["C08"], file=TR + "glencoe_writer.py", rule="C08-JOIN",
+         old="        feature_id = safename(feature.name)", new="        feature_id = feature.name"),
+    dict(id="c08-excludes-as-implies", props=["C08"], file=TR + "glencoe_reader.py", rule="C08-VOC",
+         old="            node = Node(ASTOperation.EXCLUDES, left, right)", new="            node = Node(ASTOperation.IMPLIES, left, right)"),
+    dict(id="c08-mandatory-in-group-dropped", props=["C08"], file=TR + "glencoe_reader.py", rule="C08-KIND",
+         old="                elif not optional:\n                    # Additional relation because Glencoe supports mandatory features in groups\n                    relation = Relation(feature, [child_feature], 1, 1)\n                    feature.add_relation(relation)",
+         new="                elif not optional:\n                    pass"),
+    dict(id="c08-silent-sorted-keys", props=["C08"], file=TR + "glencoe_writer.py", expect="silent",
+         old="    for feature in sorted(features, key=lambda f: f.name):", new="    for feature in sorted(features, key=lambda f: (f.name, 0)):"),
 ]
